@@ -4,6 +4,7 @@
 
      V <core> <core>          run the extracted [valid_opt] on the pair (before, after optimisation)
                               -> `accept` | `reject <diagnosis>`
+     C <core> <core>          which rewrites an accepted pair uses -> `counts R1=n R2=n R3=n R4=n`
      E <env> <tags> <core>    run the extracted [eval_core] -> canonical outcome
                               `(val <v> (log n..))` | `(err <kind> (log n..))`
 
@@ -214,6 +215,13 @@ let rec diag (a : cexpr) (b : cexpr) : string =
                (if not (droppable rhs) && diag body b = "" then "drop:" ^ sn x ^ ":" ^ why_not_droppable rhs else d)
              else nonempty (diag body body')
          | _ -> generic ())
+  | LetRec (cs, _), _
+    when (let kept = (match b with LetRec (cs', _) -> List.map (fun (g, _, _) -> g) (clist cs') | _ -> []) in
+          List.exists (fun (f, ps, bd) -> ps = [] && not (List.mem f kept) && not (droppable bd)) (clist cs)) ->
+      (* a recursive value (a member without parameters) is gone although making it is not droppable *)
+      let kept = (match b with LetRec (cs', _) -> List.map (fun (g, _, _) -> g) (clist cs') | _ -> []) in
+      let (_, _, bd) = List.find (fun (f, ps, bd) -> ps = [] && not (List.mem f kept) && not (droppable bd)) (clist cs) in
+      "drop-rec-value:" ^ why_not_droppable bd
   | LetRec (cs, body), LetRec (cs', body')
     when List.for_all (fun (g, _, _) -> List.exists (fun (f, _, _) -> f = g) (clist cs)) (clist cs') ->
       let l = clist cs and l' = clist cs' in
@@ -255,6 +263,44 @@ let rec diag (a : cexpr) (b : cexpr) : string =
   | Cast e, Cast e' -> nonempty (diag e e')
   | _, _ -> generic ()
 
+(* ---------- which rewrites an accepted pair uses (glue: evidence only) ---------- *)
+let rec count (a : cexpr) (b : cexpr) (c : int array) : unit =
+  let names l = List.map (fun (f, _, _) -> f) l in
+  match a, b with
+  | Let (x, rhs, body), Let (x', rhs', body') when x = x' && valid_opt rhs rhs' && valid_opt body body' ->
+      count rhs rhs' c; count body body' c
+  | Let (_, _, body), _ -> c.(0) <- c.(0) + 1; count body b c
+  | LetRec (cs, body), LetRec (cs', body')
+    when List.for_all (fun g -> List.mem g (names (clist cs))) (names (clist cs')) && valid_opt body body' ->
+      let l = clist cs and l' = clist cs' in
+      List.iter (fun (f, _, b1) ->
+        match List.find_opt (fun (g, _, _) -> g = f) l' with
+        | Some (_, _, b2) -> count b1 b2 c
+        | None -> c.(1) <- c.(1) + 1) l;
+      count body body' c
+  | LetRec (cs, body), _ -> c.(1) <- c.(1) + List.length (clist cs); count body b c
+  | Match (s, alts), Match (s', alts')
+    when valid_opt s s' && List.length (alist alts) = List.length (alist alts') ->
+      count s s' c; List.iter2 (fun (_, e) (_, e') -> count e e' c) (alist alts) (alist alts')
+  | Match (Rec (_, args), ACons (PRec _, body, ANil)), _ ->
+      c.(2) <- c.(2) + 1;
+      let rec fields es b =
+        match es with
+        | [] -> count body b c
+        | e :: r ->
+            (match b with
+             | Let (_, e', b') when valid_opt e e' -> count e e' c; fields r b'
+             | _ -> c.(0) <- c.(0) + 1; fields r b)
+      in fields (elist args) b
+  | Match (_, ACons (PRec _, body, ANil)), _ -> c.(3) <- c.(3) + 1; count body b c
+  | Call (f, args), Call (f', args') when List.length (elist args) = List.length (elist args') ->
+      count f f' c; List.iter2 (fun x y -> count x y c) (elist args) (elist args')
+  | Data (_, args), Data (_, args') | Rec (_, args), Rec (_, args')
+    when List.length (elist args) = List.length (elist args') ->
+      List.iter2 (fun x y -> count x y c) (elist args) (elist args')
+  | Cast e, Cast e' -> count e e' c
+  | _, _ -> ()
+
 (* ---------- evaluation ---------- *)
 let fop _ x _ = x                    (* float arithmetic is not interpreted; the harness generates no floats *)
 let fcmp _ x y = Z.eqb x y
@@ -282,7 +328,10 @@ let tags_of (s : sx) : (int * int) list =
   | L (A "tags" :: ts) -> List.map (function L [A c; A t] -> (int_of_string c, int_of_string t) | _ -> failwith "bad tag") ts
   | _ -> failwith "bad tags"
 
-let rec show_value tags (v : value) : string =
+let max_depth = 12
+
+let rec show_value_d tags depth (v : value) : string =
+  if depth > max_depth then "(deep)" else
   match v with
   | VInt z -> "(int " ^ string_of_z z ^ ")"
   | VByte z -> "(byte " ^ string_of_z z ^ ")"
@@ -291,13 +340,20 @@ let rec show_value tags (v : value) : string =
   | VStr s -> "(str " ^ String.concat " " (List.map sn s) ^ ")"
   | VData (c, vs) ->
       let c = int_of_n c in
-      let args = String.concat "" (List.map (fun v -> " " ^ show_value tags v) vs) in
+      let args = String.concat "" (List.map (fun v -> " " ^ show_value_d tags (depth + 1) v) vs) in
       if c = 2 then "(arr" ^ args ^ ")"
       else
         let t = if c = 0 then 0 else if c = 1 then 1 else (try List.assoc c tags with Not_found -> -1) in
         "(data " ^ string_of_int t ^ args ^ ")"
-  | VRec fs -> "(data 0" ^ String.concat "" (List.map (fun (_, v) -> " " ^ show_value tags v) fs) ^ ")"
-  | VClo _ | VPap _ | VHost _ -> "(fun)"
+  | VRec fs -> "(data 0" ^ String.concat "" (List.map (fun (_, v) -> " " ^ show_value_d tags (depth + 1) v) fs) ^ ")"
+  | VClo _ ->
+      (* a recursive value is unfolded; a function stays a function *)
+      (match force fop fcmp fuel v with
+       | (Val (VClo _), _) -> "(fun)"
+       | (Val w, _) -> show_value_d tags depth w
+       | _ -> "(fun)")
+  | VPap _ | VHost _ -> "(fun)"
+let show_value tags v = show_value_d tags 0 v
 
 let show_log l = "(log" ^ String.concat "" (List.map (fun z -> " " ^ string_of_z z) l) ^ ")"
 
@@ -321,6 +377,13 @@ let () =
             | [A "V"; a; b] ->
                 let a = core_of a and b = core_of b in
                 if valid_opt a b then "accept" else "reject " ^ (let d = diag a b in if d = "" then "mismatch:?" else d)
+            | [A "C"; a; b] ->
+                let a = core_of a and b = core_of b in
+                if valid_opt a b then begin
+                  let c = Array.make 4 0 in
+                  count a b c;
+                  Printf.sprintf "counts R1=%d R2=%d R3=%d R4=%d" c.(0) c.(1) c.(2) c.(3)
+                end else "counts rejected"
             | [A "E"; e; t; c] -> show_res (tags_of t) (eval_core fop fcmp fuel (env_of e) (core_of c))
             | _ -> "bad-line"
           with Failure m -> "driver-error " ^ m | Stack_overflow -> "driver-error stack-overflow"
